@@ -293,6 +293,12 @@ def record_and_validate(tag, gen, n, count, outdir, base_seed=None, timeout=900,
                            + list(extra_args),
                            stdout=subprocess.PIPE, stderr=subprocess.STDOUT, text=True)
         if r.returncode != 0:
+            fam = [l.split()[1] for l in r.stdout.splitlines() if l.startswith("DEEP ")]
+            if gen == "deep" and fam and r.returncode < 0 or (gen == "deep" and fam and r.returncode in (134, 139)):
+                # the process died (stack overflow / abort) while a maximal-nesting input was being processed: that is a C01
+                # violation of the code under test, not a tool error
+                return 0, [{"seed": sd, "trace": trace, "index": len(fam), "gen": gen, "n": n,
+                            "event": {"ev": "deep", "family": fam[-1], "res": {"p": "abort", "panic": f"process exit {r.returncode}"}}}]
             raise ToolError(f"[{tag}] recorder failed: {r.stdout[-2000:]}")
         total_events += int(r.stdout.strip().splitlines()[-1])
         prims = trace + ".prims.json"
